@@ -1181,7 +1181,9 @@ def run(c):
               "least one diverted connect + distinct random runs. Real maps: every instruction history of gen/PolicyMapGen "
               "(every sequence of 5 update_*_redirect_policy calls; every sequence of secure-channel state changes in the key "
               "keeper's call order) on the tree's eBPF object loaded into the kernel, policy_map read back after each call, "
-              "judged by trace/PolicyMapTrace")
+              "judged by trace/PolicyMapTrace. Start-up: mc/Attach.cfg (attach order publish-then-divert, every failure, 5 retries, "
+              "connects between any two steps; the swapped order must violate NeverDivertUnpublished), the real "
+              "Redirector::start retry loop + attach_bpf_prog under strace, rows judged by trace/AttachTrace")
 
 
 def real_policy_map(c):
@@ -1192,6 +1194,15 @@ def real_policy_map(c):
     from checks import realmaps
     c.assumptions.append(realmaps.ASSUME)
     realmaps.policy_map_histories(c)
+    # start-up: 'diverted AND recorded' also while the redirector starts, fails to start and retries -- the REAL
+    # Redirector::start / attach_bpf_prog under strace in a private mount namespace whose only cgroup is a private, empty
+    # one; rows derived from the system-call log, judged by spec/trace/AttachTrace (design: spec/Attach.tla)
+    c.assumptions.append("start-up part: which hook is in force is read from the system-call log (strace) of the real start-up: "
+                         "publish = kprobe PMU / perf_event_open ... PERF_EVENT_IOC_SET_BPF or a perf link, divert = "
+                         "BPF_LINK_CREATE / BPF_PROG_ATTACH with BPF_CGROUP_INET4_CONNECT; CONFIG_KPROBES is off in the sandbox, so "
+                         "the publishing attach always fails here and only start-ups that fail are observed; a connect is not in "
+                         "flight across an attach / detach step")
+    realmaps.attach_order(c)
 
 
 def replay(c, path):
